@@ -168,6 +168,12 @@ def registries_emptied(ctx, program, rid, only=None):
               node=fn, rel="function.py")
 
 
+class _ServiceLoopPolicy(FlowPolicy):
+    def await_raises(self, interp, node, cfg):
+        # awaiting a task or future object (not a call) re-raises whatever exception that task ended with
+        return ("Exception",) if not isinstance(node.value, ast.Call) else ()
+
+
 def run(ctx):
     program = ctx.program
     fn = program.func(RUN_CORO)
@@ -236,7 +242,7 @@ def run(ctx):
 
     ctx.rule("R14.8", "the reaper and waiter service loops survive a failing command: after any exception of one iteration the next command is still taken from the queue", floor=2)
     for uid, q in (("function.py::Function.init.task_reaper", "reaper_q.get"), ("function.py::Function.init.task_waiter", "waiter_q.get")):
-        pol = FlowPolicy(program, may_raise_all=True, cancel=False, events=[q], record_atoms=False, no_raise={q})
+        pol = _ServiceLoopPolicy(program, may_raise_all=True, cancel=False, events=[q], record_atoms=False, no_raise={q})
         pol.trace_handlers = True
         pol.loop_unroll = 2
         out = run_flow(program, uid, pol)
